@@ -42,9 +42,9 @@ template <class T> class Matrix44;
 
 template <class T>
 Matrix44<T> constexpr firstFrame (
-    const Vec3<T>&,                 // First point
-    const Vec3<T>&,                 // Second point
-    const Vec3<T>&) IMATH_NOEXCEPT; // Third point
+    const Vec3<T>&,  // First point
+    const Vec3<T>&,  // Second point
+    const Vec3<T>&); // Third point
 
 template <class T>
 Matrix44<T> constexpr nextFrame (
@@ -81,7 +81,7 @@ template <class T>
 Matrix44<T> constexpr firstFrame (
     const Vec3<T>& pi,                // first point
     const Vec3<T>& pj,                // secont point
-    const Vec3<T>& pk) IMATH_NOEXCEPT // third point
+    const Vec3<T>& pk)                // third point
 {
     Vec3<T> t = pj - pi;
     t.normalizeExc ();
